@@ -306,6 +306,12 @@ pub fn exec(case: &Case) -> Outcome {
                         continue;
                     }
                     let paths: Vec<String> = picks.iter().map(|p| chunks[pick_idx(*p, chunks.len())].path.clone()).collect();
+                    if paths.is_empty() {
+                        // a query that selected no chunk takes a guard too, and is over at once
+                        out.class("query-that-selected-no-chunk");
+                        drop(pins.pin(Vec::new()));
+                        continue;
+                    }
                     let g = pins.pin(paths.clone());
                     guards.push((paths.into_iter().collect(), g));
                     interesting = true;
@@ -847,6 +853,7 @@ fn op() -> impl Strategy<Value = Op> {
         5 => (0u8..6, prop::bool::weighted(0.3)).prop_map(|(delta, straddle)| Op::Register { delta, straddle }),
         4 => any::<u16>().prop_map(|pick| Op::Unreference { pick }),
         2 => prop::collection::vec(any::<u16>(), 1..3).prop_map(|picks| Op::Pin { picks }),
+        1 => Just(Op::Pin { picks: vec![] }),
         1 => any::<u16>().prop_map(|pick| Op::Unpin { pick }),
         4 => (0u8..4).prop_map(Op::Advance),
         6 => (prop::collection::vec(any::<u16>(), 0..12), prop::option::weighted(0.3, 0u8..3), prop::option::weighted(0.15, 0u8..12)).prop_map(|(schedule, pin_at_delete, crash_at)| Op::Cycle { schedule, pin_at_delete, crash_at }),
